@@ -144,7 +144,7 @@ fn main() {
                     format!("{:016x}", ddosim::agg::hash_json(&out))
                 } else {
                     let mut agg = Agg::new(0);
-                    let r = if arm.starts_with("seq-sweep") || arm == "par-sweep" { arms::run_seq_sweep(&arm, seed, i, &mut agg, None) } else { history::run_history_arm(&arm, seed, i, &mut agg).flatten() };
+                    let r = if arm.starts_with("par-preempt-sweep") { arms::run_preempt_sweep(&arm, seed, i, &mut agg, &|_| {}) } else if arm.starts_with("seq-sweep") || arm == "par-sweep" { arms::run_seq_sweep(&arm, seed, i, &mut agg, None) } else { history::run_history_arm(&arm, seed, i, &mut agg).flatten() };
                     format!("{:016x}", ddosim::agg::hash_json(&(r.map(|x| x.violations), &agg.counters)))
                 };
                 println!("{i} {line}");
